@@ -46,8 +46,9 @@ def parse_hist(out):
                 f[m.group(1)] = m.group(2)
             if pre:
                 r = Rec(); r.l = li; r.tag = tag; r.res = f.get("RES", ""); allev = [e for e in f.get("EV", "").split(";") if e]
-                r.ev = [e for e in allev if not e.startswith("MX ")]          # the compared trace
+                r.ev = [e for e in allev if not e.startswith(("MX ", "MR "))]          # the compared trace
                 r.noexec = [e for e in allev if e.startswith("MX ")]          # protection changes without execute permission (judged apart)
+                r.rxreq = [e for e in allev if e.startswith("MR ")]           # requests for execute-without-write (refused by the RXDENY policy)
                 r.snap = kv(f.get("SNAP", "")); r.jits = kv(f.get("JITS", "")); r.vals = None; r.diff = None
                 h["recs"].append(r)
             else:
@@ -84,7 +85,7 @@ SITE_WHEN = {0: True, 1: True, 2: True, 3: True, 4: True, 5: False, 6: True, 7: 
 
 def translate(h, lifetimes):
     """symbolic ops -> model ops; returns (model lifetimes string, symtab, expected value of each synthetic fake)"""
-    lifetimes = [[o for o in ops if o not in ("MAPOVER", "UNWIND", "THREAD")] for ops in lifetimes]
+    lifetimes = [[o for o in ops if o not in ("MAPOVER", "UNWIND", "THREAD", "RXDENY")] for ops in lifetimes]
     addr = dict(h["addr"])
     synth_val = {}
     out = []
